@@ -811,6 +811,36 @@ func main() {
 	// ------------------------------------------------------------ F: one DateFormat object, several Parse calls
 	// The object keeps its field map between calls (after a successful call all seven keys are set),
 	// so later calls take absent fields from the map, not from the clock.  Model: parseObj/parseHistory.
+	// presentOK: the parsed instant carries, for every letter present in the pattern, the field of t
+	presentOK := func(pat string, t int64, res string) bool {
+		v, err := strconv.ParseInt(res, 10, 64)
+		if err != nil {
+			return false
+		}
+		if hasAll(pat) {
+			return v == t
+		}
+		a, b := time.UnixMilli(t).UTC(), time.UnixMilli(v).UTC()
+		// only when the absent fields cannot push the date over (day present ⇒ compare all present date fields on the same footing)
+		ok := true
+		if strings.ContainsRune(pat, 'H') {
+			ok = ok && a.Hour() == b.Hour()
+		}
+		if strings.ContainsRune(pat, 'M') {
+			ok = ok && a.Minute() == b.Minute()
+		}
+		if strings.ContainsRune(pat, 'S') {
+			ok = ok && a.Second() == b.Second()
+		}
+		if strings.ContainsRune(pat, 's') {
+			ok = ok && a.Nanosecond()/1000000 == b.Nanosecond()/1000000
+		}
+		if strings.ContainsRune(pat, 'y') && strings.ContainsRune(pat, 'm') && strings.ContainsRune(pat, 'd') {
+			ok = ok && a.Year() == b.Year() && a.Month() == b.Month() && a.Day() == b.Day()
+		}
+		return ok
+	}
+	var objInstants []int64 // set by callers that format unmodified instants: enables the direct round-trip assertion
 	objHistory := func(pat string, texts []string, tag string) {
 		var outs []string
 		var nows []int64
@@ -841,6 +871,22 @@ func main() {
 				break
 			}
 		}
+		if len(objInstants) == len(texts) {
+			for k, t := range objInstants {
+				if t < 0 {
+					continue
+				}
+				rep.Evaluations++
+				if !presentOK(pat, t, outs[k]) {
+					rep.Fail("property", "DateFormat.Parse:reused-object-roundtrip",
+						fmt.Sprintf("one DateFormat(%q) object, Parse calls %q: call %d returned %s, but the text is the format of %s — the fields present in the pattern must come back (obj_format_parse)",
+							pat, texts[:k+1], k+1, outs[k], time.UnixMilli(t).UTC().Format("2006-01-02T15:04:05.000Z")),
+						map[string]interface{}{"op": "Q", "pattern": pat, "texts": texts[:k+1], "results": outs[:k+1], "stage": tag})
+					break
+				}
+			}
+		}
+		objInstants = nil
 		rep.Case("obj:"+pat+"@"+strings.Join(texts, "|"), true)
 		rep.Count("F:object-histories")
 		rep.CountN("F:parse-calls-on-reused-object", len(texts))
@@ -857,12 +903,60 @@ func main() {
 		if env.Thorough {
 			nobj = 20000
 		}
+		// (a) systematic: every order of the date letters (day-first, month-first, …), alone and followed by the
+		//     time letters, on ordered pairs of dates whose validity depends on the other's month / year
+		crit := [][3]int{{2024, 2, 29}, {2023, 2, 28}, {2000, 2, 29}, {2096, 2, 29}, {2099, 2, 28}, {2024, 3, 31}, {2024, 4, 30},
+			{2023, 1, 31}, {2023, 12, 31}, {2024, 1, 1}, {2025, 6, 30}, {2025, 7, 31}, {2021, 8, 31}, {2021, 9, 30}, {2099, 12, 31}, {2000, 1, 1}, {2023, 11, 30}, {2024, 10, 31}}
+		critMs := func(c [3]int, tod int64) int64 {
+			return time.Date(c[0], time.Month(c[1]), c[2], 0, 0, 0, 0, time.UTC).UnixMilli() + tod
+		}
+		orders := []string{"ymd", "ydm", "myd", "mdy", "dym", "dmy"}
+		for oi, ord := range orders {
+			sep := []string{"/", "-", ".", "", " "}[oi%5]
+			date := strings.Join(strings.Split(ord, ""), sep)
+			pats := []string{date, date + " H:M:S.s", "H:M:S.s " + date, "s" + sep + date + "SMH"}
+			for pi, pat := range pats {
+				for ai, a := range crit {
+					for bi, b := range crit {
+						if ai == bi || (!env.Thorough && (ai+bi+pi+oi)%3 != 0) {
+							continue
+						}
+						ta, tb := critMs(a, rng.Range(0, dayMs-1)), critMs(b, rng.Range(0, dayMs-1))
+						objInstants = []int64{ta, tb}
+						rep.Count("F:critical-date-pairs")
+						objHistory(pat, []string{implFormat(pat, ta), implFormat(pat, tb)}, "critical-dates")
+					}
+				}
+			}
+		}
+		// (b) random
+		critRand := func() int64 {
+			if rng.Chance(50) {
+				return critMs(crit[rng.Intn(len(crit))], rng.Range(0, dayMs-1))
+			}
+			return baseMs + rng.Range(0, nDays-1)*dayMs + rng.Range(0, dayMs-1)
+		}
 		for i := 0; i < nobj; i++ {
 			pat := genPattern(rng, rng.Chance(40))
+			if rng.Chance(50) { // any order of all seven letters
+				ls := []rune(letters)
+				for a := len(ls) - 1; a > 0; a-- {
+					b := rng.Intn(a + 1)
+					ls[a], ls[b] = ls[b], ls[a]
+				}
+				sp := rng.PickStr([]string{"/", "-", ":", ".", " ", ""})
+				parts := make([]string, len(ls))
+				for a, l := range ls {
+					parts[a] = string(l)
+				}
+				pat = strings.Join(parts, sp)
+			}
 			n := 2 + rng.Intn(3)
 			texts := make([]string, n)
+			insts := make([]int64, n)
 			for k := range texts {
-				t := baseMs + rng.Range(0, nDays-1)*dayMs + rng.Range(0, dayMs-1)
+				t := critRand()
+				insts[k] = t
 				tx := implFormat(pat, t)
 				rs := []rune(tx)
 				switch rng.Intn(8) {
@@ -882,8 +976,12 @@ func main() {
 				if ok {
 					tx = string(rs)
 				}
+				if tx != implFormat(pat, t) {
+					insts[k] = -1
+				}
 				texts[k] = tx
 			}
+			objInstants = insts
 			objHistory(pat, texts, "random")
 		}
 		// the witness of C19.finding_reuse
